@@ -94,6 +94,11 @@ int ep_upk(ep_t r, const ep_t p) {
 		/* t0 = sqrt(x1^3 + a * x1 + b). */
 		result = fp_srt(t, t);
 
+		/* A zero y-coordinate has no negative: refuse the sign bit asking for it. */
+		if (result && fp_is_zero(t) && fp_get_bit(p->y, 0) == 1) {
+			result = 0;
+		}
+
 		if (result) {
 			if (ep_curve_is_pairf()) {
 				/* Verify whether the y coordinate is the larger one, matches the
